@@ -826,6 +826,33 @@ def iso_hypotheses(ctx, kept, shard):
                       {"case": unexpected[0]}, no_input=True)
 
 
+HEADER4 = "From DV Require Import Model.PyPrims Model.C12Model Model.C12Spec2 Model.C12Spec3.\nFrom Coq Require Import ZArith. Open Scope Z_scope."
+
+
+def iso4_hypotheses(ctx, kept, shard):
+    """fifth wave: on how many cases do the hypotheses of deepcopy_isomorphism (wf_heap3s, wf_heap4, root_ok4)
+    hold?  Counted only (the theorem's other hypotheses are part of case_ok3); failures are expected on
+    copy-constructed sources and per-cell annotation sets, anything else is counted separately."""
+    run = [(c, t) for c, t in kept if "(ESkip" not in t]
+    if not run:
+        return
+    bad, errors = core.run_cases(ctx.pid, HEADER4, "case_iso4_hyp", [t for _, t in run], shard=max(shard, 100), tag="_iso4")
+    ctx.obligation("isomorphism-theorem hypotheses evaluated on %d cases (vm_compute)" % len(run), not errors)
+    for e in errors:
+        ctx.notes.append(e[:1500])
+    if errors:
+        return
+    ctx.count("isomorphism-hypotheses:hold", len(run) - len(bad))
+    for i in bad:
+        c = run[i][0]
+        if c.get("via_ctor"):
+            ctx.count("isomorphism-hypotheses:fail(copy-constructed source)")
+        elif any(d[0] == "cell_ann" for d in c.get("deco", [])):
+            ctx.count("isomorphism-hypotheses:fail(per-cell annotation sets)")
+        else:
+            ctx.count("isomorphism-hypotheses:fail(other)")
+
+
 def run(tier, seed, replay=None):
     ctx = core.Ctx("C12", tier, seed)
     ctx.assumptions = [
@@ -873,6 +900,7 @@ def run(tier, seed, replay=None):
                     oracle=lambda c, o: oracle(c, o), show_fn="case_run", nontrivial=nontrivial,
                     search=search, shard=shard, sample_fn=sample_fn)
     iso_hypotheses(ctx, kept, shard)
+    iso4_hypotheses(ctx, kept, shard)
     shallow_stage(ctx, cases, obs_cached, max(shard, 100))
     return ctx.finish(level="proof",
                       rule="random decorated trees (<=60 nodes), tree lists, DNA/standard/continuous matrices and namespaces; "
